@@ -81,6 +81,14 @@ GoalSwapAfterPersist == Goal(mPc = "ingested" /\ ~mw.base.nil /\ base.nil /\ ~Tr
 \* the merger handed off an empty stack (idle run) and data arrived while that round was pending
 GoalDataBehindIdleRound == Goal(~base.nil /\ TreeEmpty(base.t) /\ HasSegs(mid) /\ pPc = "idle")
 
+\* a lower-level update failed while the merger sits between the ingest of a cycle that has nothing to
+\* merge (woken by a ping) and the assignment that ends that cycle: whatever the persister does with the
+\* stack that failed must survive the merger's assignment (the behaviour ends there; the driver's epilogue
+\* lets both goroutines run on and reads everything again)
+GoalFailDuringEmptyCycle ==
+    Goal(mPc = "ingested" /\ TreeEmpty(mw.t) /\ errs > 0 /\ HasSegs(base) /\ pPc = "idle"
+         /\ Len(hist) > 0 /\ hist[Len(hist)].act = "PersisterUpdate")
+
 \* shadowing across sections while the merger is between ingest and swap: the newest version of a
 \* key lies in stackDirtyBase (round pending), an older one in stackClean, none above
 SecHasOp(sct, p, k) == ~sct.nil /\ sct.t[p].has /\ \E i \in 1..Len(sct.t[p].segs) : sct.t[p].segs[i][k].o # "none"
